@@ -11,6 +11,9 @@ package main
 //   correspondence: per connection (input, closed?, error reply seen?) against the Coq dispatch model.
 
 import (
+	"bytes"
+	"runtime/pprof"
+	"strconv"
 	"encoding/binary"
 	"encoding/json"
 	"fmt"
@@ -139,6 +142,7 @@ type upstream struct {
 	evil  [][]byte // malformed answers (bolt only); nil: answer correctly
 	next  int32
 	conns sync.Map
+	sent  sync.Map // request id -> hex of the malformed answer that was written for it
 }
 
 func startUp(proto string, evil [][]byte) *upstream {
@@ -194,6 +198,7 @@ func (u *upstream) serve(c net.Conn) {
 				if len(ans) >= 9 && ans[0] == 1 {
 					binary.BigEndian.PutUint32(ans[5:], id)
 				}
+				u.sent.Store(id, Hex(clip(ans, 600)))
 				c.Write(ans)
 				continue
 			}
@@ -244,6 +249,10 @@ type atkResult struct {
 	Followed  bool   `json:"followed"`
 	Problem   string `json:"problem,omitempty"`
 	ElapsedMs int    `json:"elapsed_ms"`
+	// evil-upstream cases: what the upstream answered, and (on a hang) where the goroutines of the process wait
+	SilentAttempts int    `json:"silent_attempts,omitempty"`
+	EvilAnswers    []int  `json:"evil_answers_so_far,omitempty"`
+	Dump           string `json:"goroutines,omitempty"`
 }
 
 type childReport struct {
@@ -334,6 +343,12 @@ func containChild(args []string) int {
 			// corrupted responses, and corrupted REQUEST frames sent by the upstream (a request with an undecodable header block
 			// on a client-side connection must not be answered through the nil server callbacks)
 			if len(in.Bytes) > 2 && in.Bytes[0] == 1 && (in.Bytes[1] == 0 || strings.HasPrefix(in.Kind, "hdrblock")) && in.Kind != "valid" && in.Kind != "two-frames" {
+				if os.Getenv("VH_EVIL_CLOSE") != "" {
+					// reproduction aid: only answers on which Decode reports an error (the upstream connection is closed at once)
+					if k := decodeOnce(defs["bolt"].Proto, defs["bolt"].Sum, in.Bytes, 0, false).Kind; k != "err" && k != "errframe" {
+						continue
+					}
+				}
 				evil = append(evil, in.Bytes)
 			}
 		}
@@ -502,6 +517,7 @@ func containChild(args []string) int {
 	// ---- attackers
 	nper := run.N(28, 400)
 	wait := time.Duration(run.N(220, 350)) * time.Millisecond
+	evilSeq := 0
 	mkInputs := func() []atkInput {
 		var ins []atkInput
 		if h := os.Getenv("VH_ONLY"); h != "" { // debugging: one input on the bolt listener
@@ -547,8 +563,13 @@ func containChild(args []string) int {
 			ins = append(ins, atkInput{Listener: "auto", Kind: "auto-garbage", Bytes: b, WantClosed: v == 1, Residue: len(b)})
 		}
 		// upstream side: valid requests routed to the upstream that answers with malformed frames
-		for i := 0; i < run.N(6, 80); i++ {
-			ins = append(ins, atkInput{Listener: "bolt-evil-upstream", Kind: "evil-upstream", Bytes: boltRequestBytes(uint32(7000+i), "evil", 600, []byte("x"))})
+		nevil := run.N(6, 80)
+		if v, _ := strconv.Atoi(os.Getenv("VH_EVIL_LOOP")); v > 0 {
+			ins, nevil = nil, v // reproduction aid: only the evil-upstream scenario, v times per round
+		}
+		for i := 0; i < nevil; i++ {
+			evilSeq++
+			ins = append(ins, atkInput{Listener: "bolt-evil-upstream", Kind: "evil-upstream", Bytes: boltRequestBytes(uint32(7000+evilSeq), "evil", 600, []byte("x"))})
 		}
 		for i := range ins {
 			ins[i].Hex = Hex(clip(ins[i].Bytes, 1500))
@@ -556,6 +577,7 @@ func containChild(args []string) int {
 		}
 		return ins
 	}
+	dumps := int32(0)
 	attack := func(in atkInput) (res atkResult) {
 		res.atkInput = in
 		t0 := time.Now()
@@ -588,20 +610,45 @@ func containChild(args []string) int {
 			}
 		}
 		if in.Listener == "bolt-evil-upstream" {
-			// the client must get an error reply or a close within the request time-out + slack, never hang
-			c.SetReadDeadline(time.Now().Add(6 * time.Second)) // request time-out 600 ms; generous because the box may be loaded
-			fr, err := readFrame(c, "bolt")
-			switch {
-			case err == nil:
-				_, _, _, status := boltID(fr)
-				res.Reply = true
-				if status == 0 {
-					res.FollowOK = true // the corrupted answer was still a decodable success response
+			// the client must get an error reply or a close within the request time-out + slack, never hang.  The verdict is by
+			// what arrives on the client's socket (a reply frame / a close) with a generous cap; a case that stays silent is
+			// tried again on FRESH connections (new request id) up to two more times and is only reported when all three
+			// attempts stay silent; every silent attempt is kept as an observation with a goroutine dump of the process
+			wait1 := func(cc net.Conn, cap time.Duration) (reply, ok, closed, silent bool) {
+				cc.SetReadDeadline(time.Now().Add(cap))
+				fr, err := readFrame(cc, "bolt")
+				switch {
+				case err == nil:
+					_, _, _, status := boltID(fr)
+					return true, status == 0, false, false
+				case isTimeout(err):
+					return false, false, false, true
 				}
-			case isTimeout(err):
-				res.Problem = "no reply and no close within 6 s after the upstream answered with a malformed frame (request time-out 600 ms)"
-			default:
-				res.Closed = true
+				return false, false, true, false
+			}
+			var silent bool
+			res.Reply, res.FollowOK, res.Closed, silent = wait1(c, 8*time.Second) // request time-out 600 ms; generous because the box may be loaded
+			for attempt := 1; silent; attempt++ {
+				res.SilentAttempts++
+				var gb bytes.Buffer
+				pprof.Lookup("goroutine").WriteTo(&gb, 2)
+				k := atomic.AddInt32(&dumps, 1)
+				res.Dump = filepath.Join(dir, fmt.Sprintf("goroutines-%d.txt", k))
+				os.WriteFile(res.Dump, gb.Bytes(), 0o644)
+				res.EvilAnswers = append(res.EvilAnswers, int(atomic.LoadInt32(&ups["bolt-evil"].next)))
+				if attempt > 2 {
+					res.Problem = "no reply and no close after the upstream answered with a malformed frame (request time-out 600 ms): three attempts on fresh connections stayed silent (8 s, 12 s, 12 s)"
+					break
+				}
+				_, _, id, _ := boltID(in.Bytes)
+				c2, err := net.DialTimeout("tcp", lis["bolt"], time.Second)
+				if err != nil {
+					res.Problem = "dial (retry): " + err.Error()
+					break
+				}
+				c2.Write(boltRequestBytes(id+uint32(100000*attempt), "evil", 600, []byte("x")))
+				res.Reply, res.FollowOK, res.Closed, silent = wait1(c2, 12*time.Second)
+				c2.Close()
 			}
 			return
 		}
@@ -771,6 +818,8 @@ func c08Contain(run *Run) {
 	run.Sum.Extra["contain_goroutines"] = rep.Goroutines
 	run.Sum.Extra["contain_heap_mb"] = rep.HeapMB
 	run.Sum.Extra["contain_evil_upstream_answers"] = rep.EvilAnswers
+	silentObs := 0
+	defer func() { run.Sum.Extra["contain_evil_upstream_silent_attempts"] = silentObs }()
 	if rep.Goroutines[2] > rep.Goroutines[1]+12 || rep.Goroutines[2] > rep.Goroutines[0]+40 {
 		run.Fail("contain:goroutine-leak", fmt.Sprintf("goroutines: baseline %d, after round 1 %d, after round 2 %d (attackers disconnected)", rep.Goroutines[0], rep.Goroutines[1], rep.Goroutines[2]), map[string]interface{}{"goroutines": rep.Goroutines})
 	}
@@ -786,8 +835,21 @@ func c08Contain(run *Run) {
 		run.Count("contain|"+res.Listener+"|"+res.Hex, res.Kind != "valid", "contain:"+res.Listener, "contain:"+res.Listener+":"+outcomeName(res))
 		r := map[string]interface{}{"listener": res.Listener, "kind": res.Kind, "input_hex": res.Hex, "closed": res.Closed, "reply": res.Reply, "follow_ok": res.FollowOK,
 			"want_closed": res.WantClosed, "want_reply": res.WantReply, "elapsed_ms": res.ElapsedMs}
+		if res.SilentAttempts > 0 {
+			// kept in the evidence whether or not it is reported: where the process waited is in the goroutine dump
+			r["silent_attempts"], r["goroutine_dump"] = res.SilentAttempts, res.Dump
+			silentObs++
+			if res.Problem == "" {
+				run.Sample(map[string]interface{}{"part": "containment", "observation": "an evil-upstream request stayed silent for 8 s on one attempt and was answered on a fresh connection", "silent_attempts": res.SilentAttempts, "input_hex": res.Hex, "goroutine_dump": res.Dump})
+			}
+		}
 		switch {
 		case res.Problem != "":
+			if res.Dump != "" {
+				if d, err := os.ReadFile(res.Dump); err == nil {
+					r["goroutines"] = string(clip(d, 60000))
+				}
+			}
 			run.Fail("contain:"+res.Listener+":wedged", res.Listener+": "+res.Problem, r)
 		case res.Listener == "bolt-evil-upstream":
 		case res.WantClosed && !res.Closed:
